@@ -644,7 +644,7 @@ pub fn cmd_migrate_replay(args: &HashMap<String, String>) -> i32 {
         let grow = mig["grow"].as_bool().unwrap();
         // identity hashing (uniform keys, zero salt): all keys of a column share one index chunk,
         // so removals leave holes in front of live entries
-        let zero = grow || (seed + idx as u64) % 3 == 0;
+        let zero = grow || (seed + idx as u64) % 2 == 0;
         let uniform = zero || (seed + idx as u64) % 2 == 0;
         let nkeys = mig["dst"][0].as_array().unwrap().len() as u64;
         let scols: Vec<ColumnOptions> = mig["sopts"].as_array().unwrap().iter().map(|o| hopt(o, uniform)).collect();
